@@ -52,6 +52,16 @@
 (* datagrams to udpBatchWriter whose add() refuses what does not fit its BatchSize slots;                        *)
 (* DevNoInnerFlush (seeded fault C12/r3m1) removes the flush inside the unpack loop:                              *)
 (* Relay_udp_show_noinnerflush.cfg MUST fail (UBatchFits / UCompleteAny); Relay_udp_batch.cfg passes.              *)
+(* End cause (round 4).  A direction ends by a clean EOF, a read error or a write error (Cause(d)), on          *)
+(* either side, at any point of the stream, while the other endpoint is still sending, half-closed or only           *)
+(* waiting.  Whatever the cause, the destination of the finished direction is told (BToldSafe, BTold); with          *)
+(* peers that react to what they are told (Reactive, EpReact with fairness: a passive peer closes when it sees        *)
+(* end-of-stream) one side ending is enough for the relay to return (BReturnsWhenOneSideEnds,                          *)
+(* Relay_bidi_told.cfg).  DevNoSignalOnError (seeded fault C02/r4m2): half-close only after a clean end -               *)
+(* Relay_bidi_show_nosignal.cfg MUST fail (BToldSafe; the liveness variant Relay_bidi_show_nosignal_live.cfg            *)
+(* shows the lasso: the passive peer is never told, the other copier sits in its Read for ever).                         *)
+(* Not judged: a conn that cannot be half-closed (no CloseWrite behind it) after an ERROR of the other side - the        *)
+(* code waits for the peer of that conn to send or end; the property statement is silent there.                          *)
 (* Not modelled: zero-length datagrams (dropped by g1, unrepresentable in the encoding), UDP        *)
 (* socket write errors other than "closed", a tunnel whose write side fails before its read side.  *)
 EXTENDS Naturals, Sequences, FiniteSets, TLC, Json
@@ -68,6 +78,10 @@ CONSTANTS
   IdleMax,         \* the monitor's idle timeout (5 minutes in the code), in ticks
   DevMonNoFeed,    \* the code as found before C12-4: nothing ever signals activityChan - the "idle" timer is an
                    \* absolute lifetime: the tunnel is closed IdleMax ticks after Start whatever traffic flows
+  Reactive,        \* TRUE: the endpoints are peers that REACT: an endpoint that is only waiting closes as soon as it has
+                   \* been told that the other side is over (it sees end-of-stream / its conn closed) - with fairness
+  DevNoSignalOnError, \* seeded fault C02/r4m2 (not in the code): tryCloseWrite(dst) only after a CLEAN end of the
+                   \* direction (SendError/ReceiveError == nil); after a read error or a write error nobody is told
   DevCloseWriterFallback, \* seeded fault: the adapter's CloseWrite closes a Writer that is only an io.Closer
   \* ---- (ii) UDP
   Classes,       \* datagram size classes = model sizes (1, 2, 3 ~ "255", 4 ~ "65535")
@@ -150,6 +164,8 @@ Dst(d) == IF d = "AB" THEN "B" ELSE "A"
 \*   cap = what the (writer) object offers: cw (CloseWrite) | closer (Close only) | none
 AllShapes == {"direct-cw", "direct-closer", "same-cw", "same-closer", "same-none", "split-cw", "split-closer", "split-none"}
 LocalShapes == {"direct-cw", "direct-closer"}
+CwLocal == {"direct-cw"}
+CwShapes == {"direct-cw", "same-cw", "split-cw"}     \* conns on which tryCloseWrite reaches a CloseWrite
 TwoShapes == {"direct-cw", "same-closer"}
 \* effect of tryCloseWrite(conn) on a conn of that shape:
 \*   "eof"  - the peer of that conn sees end-of-stream, its other direction is untouched
@@ -204,7 +220,15 @@ EpError(e) == /\ bmain = "wait" /\ ep[e].rd = "open"
               /\ ep' = [ep EXCEPT ![e].wr = "err", ![e].rd = "closed"]
               /\ BH([a |-> "Error", e |-> e])
               /\ UNCHANGED <<shape, cp, bmain, rclosed, dl, mon>>
-EnvB == \E e \in Ends : EpSend(e) \/ EpHalfClose(e) \/ EpClose(e) \/ EpError(e)
+\* e has been told that the other side is over: its peer sees end-of-stream (the relay half-closed the
+\* conn) or the conn closed
+Told(e) == (Cw(e) /\ ep[e].eofSeen) \/ rclosed[e]
+\* a passive peer (a server waiting for the next request) reacts to what it is told: it closes
+EpReact(e) == /\ Reactive /\ bmain = "wait" /\ ep[e].rd = "open" /\ Told(e)
+              /\ ep' = [ep EXCEPT ![e].wr = IF @ = "open" THEN "shut" ELSE @, ![e].rd = "closed"]
+              /\ BH([a |-> "React", e |-> e])
+              /\ UNCHANGED <<shape, cp, bmain, rclosed, dl, mon>>
+EnvB == \E e \in Ends : EpSend(e) \/ EpHalfClose(e) \/ EpClose(e) \/ EpError(e) \/ EpReact(e)
 
 \* ---- copier goroutine d: for { nr, readErr := src.Read(buf); ... } ---------------------------
 Avail(d) == ep[Src(d)].sent - cp[d].off
@@ -246,10 +270,15 @@ CWrite(d) ==
   /\ BH([a |-> "Write", d |-> d])
   /\ UNCHANGED <<shape, bmain, rclosed, dl>>
 \* tryCloseWrite(dst): see Effect
+\* the END CAUSE of direction d: "eof" (clean end of the source) | "rerr" (the source's Read failed: reset,
+\* transport error, time-out, conn closed under the reader) | "werr" (the destination's Write failed)
+Cause(d) == IF cp[d].werr THEN "werr" ELSE IF cp[d].rerr = "err" THEN "rerr" ELSE "eof"
+\* DevNoSignalOnError: the half-close is skipped unless the direction ended cleanly
+Signals(d) == ~DevNoSignalOnError \/ Cause(d) = "eof"
 CHalfClose(d) ==
   /\ cp[d].pc = "halfclose"
-  /\ ep' = [ep EXCEPT ![Dst(d)].eofSeen = @ \/ Cw(Dst(d))]
-  /\ rclosed' = [rclosed EXCEPT ![Dst(d)] = @ \/ Effect(shape[Dst(d)]) = "kill"]
+  /\ ep' = [ep EXCEPT ![Dst(d)].eofSeen = @ \/ (Signals(d) /\ Cw(Dst(d)))]
+  /\ rclosed' = [rclosed EXCEPT ![Dst(d)] = @ \/ (Signals(d) /\ Effect(shape[Dst(d)]) = "kill")]
   \* DevDeadlineAt = "halfclose" (seeded fault C12/r3m2, not in the code): "the other direction must not wait
   \* for ever" - an ABSOLUTE deadline is put on the conn the surviving direction reads from (Dst(d)) and, for a
   \* write deadline, on the conn it writes to (Src(d))
@@ -316,6 +345,15 @@ BReverseKeepsFlowing ==
 \* ... and a direction never ends unless its own source ended or its own destination failed
 BNoSpuriousEnd == \A d \in Dirs : cp[d].rerr # "none" => (ep[Src(d)].wr # "open" \/ mon.fired)
 BNoSpuriousWriteEnd == \A d \in Dirs : cp[d].werr => (ep[Dst(d)].rd = "closed" \/ rclosed[Dst(d)])
+\* whatever ended a direction (clean EOF, read error, write error - on either side, at any point of the
+\* stream), its destination is told: a direction that is over has half-closed its destination (if the conn
+\* can be half-closed at all) or the conn is closed
+BToldSafe == \A d \in Dirs : cp[d].pc = "done" => (Told(Dst(d)) \/ ~Cw(Dst(d)))
+\* liveness: once an endpoint is over - for ANY cause - the other endpoint is told (or the relay has returned)
+BTold == \A s \in Ends : (ep[s].wr # "open") ~> (Told(IF s = "A" THEN "B" ELSE "A") \/ ~Cw(IF s = "A" THEN "B" ELSE "A") \/ bmain = "returned")
+\* liveness with peers that react to what they are told (cfg: every conn can be half-closed): one endpoint
+\* ending, for any cause, is enough for the relay to return
+BReturnsWhenOneSideEnds == (\E s \in Ends : ep[s].wr # "open") ~> (bmain = "returned")
 \* the relay puts no deadline on a conn whose direction is still live (time alone must never
 \* end a direction whose source is open)
 BNoDeadline == \A e \in Ends : dl[e] = "none"
@@ -327,6 +365,7 @@ BMonotone == [][\A e \in Ends : /\ ep'[e].got >= ep[e].got
 
 BFair == /\ \A d \in Dirs : WF_vars(Copier(d) /\ UFrozen)
          /\ WF_vars(BMain /\ UFrozen)
+         /\ \A e \in Ends : WF_vars(EpReact(e) /\ UFrozen)      \* (enabled only with Reactive)
 \* liveness: once both endpoints have finished sending (EOF or failure), Bidirectional returns
 BTermination == (\A e \in Ends : ep[e].wr # "open") ~> (bmain = "returned")
 \* liveness: after one side half-closed, bytes the other side still sends are delivered as long
